@@ -1028,6 +1028,10 @@ def c10_spawn(ctx):
     sp = calls(st, 'SchedulerCore::spawn_thread_if_less_than_maximum')
     rec = calls(st, 'SchedulerCore::schedule_thread')
     key = 'schedule_thread|dormant-else-spawn-then-retry'
+    # the retry is a recursive call, or - written as a loop - the way back to the schedule_dormant call
+    looped = len(d) == 1 and len(rec) == 0 and d[0][0] in st.reachable_blocks(d[0][1]['target']) if (len(d) == 1 and d[0][1]['target'] is not None) else False
+    if looped:
+        rec = [d[0]]
     if len(d) != 1 or len(sp) != 1 or len(rec) != 1:
         out.append(bad(R, key, 'expected schedule_dormant, spawn_thread_if_less_than_maximum and a retry (found %d/%d/%d)' % (len(d), len(sp), len(rec)), fn=st.name))
         return out
@@ -1048,7 +1052,7 @@ def c10_spawn(ctx):
     t_edge = es.get('otherwise') if es else None
     if f_edge is None or t_edge is None:
         out.append(undecided(R, key, 'shape not recognised'))
-    elif edom(st, f_edge, sp[0][0]) and edom(st, t_edge, rec[0][0]) \
+    elif edom(st, f_edge, sp[0][0]) and (looped or edom(st, t_edge, rec[0][0])) \
             and st.must_pass(f_edge, set(st.exits()), {sp[0][0]}) and st.must_pass(t_edge, set(st.exits()), {rec[0][0]}):
         out.append(ok(R, key, 'no dormant thread -> always try to spawn below the maximum -> on success always retry', fn=st.name))
     else:
@@ -1235,6 +1239,17 @@ def c17(ctx):
                             fe = [tb for v, tb in tt['targets'] if v == '0']
                             if fe:
                                 exit_edges.add(fe[0])
+                            continue
+                        # the same test written from the other side: `len <= max` (i.e. `max >= len`): its *true* edge is "not over"
+                        exact_len_b = eb[0] == 'call' and eb[1].endswith('Vec::len') and 'threads' in b and not _has_arith(eb)
+                        exact_max_a = ea[0] != 'binop' and 'max_threads' in a and 'len(' not in a and not _has_arith(ea)
+                        if exact_len_b and exact_max_a and op == 'Ge':
+                            listed0 = [tb for v, tb in tt['targets'] if v == '0']
+                            te = tt['otherwise'] if listed0 else None
+                            if te is None:
+                                te = dict((v, tb) for v, tb in tt['targets']).get('1')
+                            if te is not None:
+                                exit_edges.add(te)
             drops = [b2 for b2, blk in enumerate(dp.blocks) if not blk['cleanup'] and blk['term'] and blk['term']['k'] == 'drop'
                      and not blk['term']['pl']['p'] and H.guards.get(blk['term']['pl']['l']) == 'SchedulerCore.threads']
             locks_ = [t_['target'] for b2, t_, kind, cls in lock_sites(dp) if cls == 'SchedulerCore.threads' and t_['target'] is not None]
